@@ -321,8 +321,13 @@ class Program:
             renames = {}
             for q in vanished:
                 owner, _, old = q.rpartition('.')
+                # only PRIVATE names: a public function, a dunder, a listener / visitor callback is found by its name from outside
+                # (the ANTLR walker calls exitKeySignature by that very name) - renaming one of those changes behaviour
+                if not old.startswith('_') or old.startswith('__'):
+                    continue
                 cands = [f for f in new if f.qualname.rpartition('.')[0] == owner and self.body_digest(f.node) == known[q]]
-                if len(cands) == 1 and cands[0].name not in taken_names and cands[0].name not in renames:
+                if len(cands) == 1 and cands[0].name not in taken_names and cands[0].name not in renames \
+                        and cands[0].name.startswith('_') and not cands[0].name.startswith('__'):
                     renames[cands[0].name] = old
             if not renames:
                 return
